@@ -130,6 +130,11 @@ def build_reply(t, req, prev_txid):
     elif mode.startswith("flip"):
         tx ^= 1 << int(mode[4:])
     d = struct.pack(">II", t["action"] & 0xffffffff, tx) + bytes.fromhex(t.get("body", ""))
+    if t.get("echo_port") and len(req) >= 98:
+        # a tracker that builds its reply from the request, as real ones do: records whose port is the port the client
+        # announced (bytes 96..98 of its request) - the announcer itself and other hosts behind the same port number
+        # (added after seeded change C12-14: a "do not list ourselves" filter that compared only the port)
+        d += b"".join(bytes.fromhex(h) + req[96:98] for h in t["echo_port"])
     if t.get("cut") is not None:
         d = d[:t["cut"]]
     return d
@@ -700,6 +705,11 @@ def gen_e2e(ctx):
             c, a = good_connect(rng), good_announce(rng, rng.choice((0, 1, 3, 20, 150)), stride, dup=True)
             if r < 0.55:
                 kind = "valid"
+                if rng.random() < 0.4:
+                    hosts = [bytes([127, 0, 0, 1]), bytes([10, 9, 8, 7]), bytes(rng.getrandbits(8) for _ in range(4))]
+                    if v6:
+                        hosts = [bytes(15) + b"\x01", bytes.fromhex("20010db8") + bytes(rng.getrandbits(8) for _ in range(12))]
+                    a = dict(a, echo_port=[h.hex() for h in rng.sample(hosts, rng.randrange(1, len(hosts) + 1))])
             elif r < 0.65:
                 kind, a = "bad-txid", dict(a, txid=rng.choice(("plus1", "swap", "prev")))
             elif r < 0.72:
@@ -761,6 +771,13 @@ def gen_e2e(ctx):
         if i % 3 == 2:
             specs.append({"t": "udp", "kind": "bad-txid", "v6": False, "s1": [good_connect(rng)],
                           "s2": [dict(good_announce(rng, 1, 6), txid="plus1")]})
+        if i % 3 == 1:
+            # a reply that must be refused as a whole although whole records stand in front of what is wrong with it: none of
+            # them is a peer (added after seeded change C12-13: from-link took the records decoded before the stray bytes)
+            b = good_announce(rng, rng.choice((1, 2, 5)), 6)
+            b["body"] = (bytes.fromhex(b["body"])[:12] + b"".join(bytes([127, 0, 0, 1]) + struct.pack(">H", rng.randrange(1, 20))
+                                                                   for _ in range(rng.choice((1, 2, 3)))) + bytes(rng.randrange(1, 6))).hex()
+            specs.append({"t": "udp", "kind": "ragged", "v6": False, "s1": [good_connect(rng)], "s2": [b]})
         out.append({"name": "fromlink-%d" % i, "specs": specs, "cmd": "from-link", "one_thread": i % 2 == 0 or i % 4 == 1})
     # more answering trackers than worker threads: every reply is collected, nothing waits for a reader that comes later
     # (added after seeded change C12-12: a bounded channel drained only after the parallel loop)
